@@ -307,3 +307,121 @@ func VerifC01Sequence1()      { verifSequence(1, true) }
 func VerifC01Sequence2()      { verifSequence(2, false) }
 func VerifC01Sequence2Stall() { verifSequence(2, true) }
 func VerifC01Sequence3()      { verifSequence(3, false) }
+
+// C05 / C01: the function timeout may expire at any point of a healthy invocation (stub
+// sandbox). Each invocation ends with the response or with the timeout outcome, and whatever
+// happened to it, the following invocation gets its own response (no stale completion signal).
+func VerifC05ExpiryRaceStub() {
+	sb := &verifSandbox{}
+	n := 2
+	for i := 0; i < n; i++ {
+		sb.behaviours = append(sb.behaviours, vbRespond)
+		sb.payloads = append(sb.payloads, verifPayload("runtime payload"))
+	}
+	s := newVerifServer(sb, 3000)
+	verifSettle()
+	verifRaceTimers(true)
+	for i := 0; i < n; i++ {
+		w := newVerifWriter()
+		dispatched := sb.nInvokes
+		err := s.Invoke(w, &interop.Invoke{Payload: bytes.NewReader(nil)})
+		if err == ErrInvokeTimeout {
+			verifReach("expiry-won")
+			continue
+		}
+		verifReach("response-won")
+		verifAssert(err == nil, "a healthy invocation ends with success or with the timeout outcome")
+		verifAssert(sb.nInvokes == dispatched+1, "a successful invocation was dispatched to the runtime")
+		verifAssert(w.writes == 1 && string(w.body) == string(sb.payloads[dispatched]), "a successful invocation returns the body posted for it, whatever happened to the previous one")
+	}
+}
+
+// ---------------------------------------------------------------------------
+// C02 / C01.2: symbolic script over the Server's reservation and reply API against a ghost
+// model: only the in-flight id is accepted, only once, and only onto the reservation's stream.
+
+func verifServerScript(L int) {
+	sb := &verifSandbox{}
+	s := newVerifServer(sb, 3000)
+	verifSettle()
+	verifSpawnEnv(func() { // what FastInvoke does with the metrics of an accepted response
+		for {
+			<-s.sendResponseChan
+		}
+	})
+	reserved, sent := false, false
+	cur, prev := "", ""
+	var stream *verifWriter
+	expectWrites := map[*verifWriter]int{}
+	var all []*verifWriter
+	for i := 0; i < L; i++ {
+		switch verifChoice(4, "server op") {
+		case 0: // reserve
+			resp, err := s.Reserve("", "", "")
+			if reserved {
+				verifAssert(err == ErrAlreadyReserved, "a second reservation is refused")
+			} else {
+				verifAssert(err == nil && resp != nil, "reservation succeeds when idle")
+				reserved, sent, stream = true, false, nil
+				prev, cur = cur, resp.Token.InvokeID
+				verifAssert(cur != prev && cur != "", "each reservation gets a fresh request id")
+			}
+		case 1: // attach the caller's reply stream
+			w := newVerifWriter()
+			all = append(all, w)
+			id, err := s.setReplyStream(w, false)
+			switch {
+			case !reserved:
+				verifAssert(err == ErrNotReserved, "no reply stream without a reservation")
+			case sent:
+				verifAssert(err == ErrAlreadyReplied, "no reply stream after the reply")
+			case stream != nil:
+				verifAssert(err == ErrAlreadyInvocating, "only one reply stream per reservation")
+			default:
+				verifAssert(err == nil && id == cur, "reply stream attached to the in-flight id")
+				stream = w
+			}
+		case 2: // response / error for some id
+			which := verifChoice(3, "id used")
+			id := []string{cur, prev, "bogus-id"}[which]
+			payload := verifPayload("posted payload")
+			var err error
+			if verifChoice(2, "response or error") == 0 {
+				err = s.SendResponse(id, &interop.StreamableInvokeResponse{Payload: bytes.NewReader(payload)})
+			} else {
+				err = s.SendErrorResponse(id, &interop.ErrorInvokeResponse{Payload: payload, FunctionError: interop.FunctionError{Type: "Function.E"}})
+			}
+			switch {
+			case !reserved || id != cur || id == "":
+				verifReach("refused-id")
+				verifAssert(err == interop.ErrInvalidInvokeID, "a submission for any id but the in-flight one is refused with ErrInvalidInvokeID")
+			case sent:
+				verifReach("refused-dup")
+				verifAssert(err == interop.ErrResponseSent, "a second submission for the in-flight id is refused with ErrResponseSent")
+			case stream == nil:
+				verifAssert(err != nil && err != interop.ErrInvalidInvokeID && err != interop.ErrResponseSent, "submission before the caller's stream is attached is refused")
+			default:
+				verifReach("accepted")
+				verifAssert(err == nil, "first submission for the in-flight id is accepted")
+				sent = true
+				expectWrites[stream] = 1
+				verifAssert(string(stream.body) == string(payload), "the caller's stream receives exactly the posted body")
+			}
+		case 3: // release
+			err := s.Release()
+			if reserved {
+				verifAssert(err == nil, "release of a reservation succeeds")
+			} else {
+				verifAssert(err == ErrNotReserved, "release without reservation is refused")
+			}
+			reserved, sent, stream = false, false, nil
+		}
+		for _, w := range all {
+			verifAssert(w.writes == expectWrites[w], "every caller's stream received exactly the accepted body, nothing else")
+		}
+	}
+}
+
+func VerifC02ServerScript4() { verifServerScript(4) }
+func VerifC02ServerScript5() { verifServerScript(5) }
+func VerifC02ServerScript6() { verifServerScript(6) }
